@@ -9,6 +9,9 @@ ENGINES = [
 ]
 
 PHASES = {
+    "C13": [
+        {"pkg": "e2", "test": "TestC13Wills", "phase": "C13/will-messages"},
+    ],
     "C12": [
         {"pkg": "e2", "test": "TestC12Takeover", "phase": "C12/client-id-takeover"},
     ],
@@ -57,6 +60,12 @@ PHASES = {
 }
 
 META = {
+    "C13": {
+        "engine": "E2-brokermc",
+        "technique": "exhaustive cross product of will parameters x termination causes x watcher placements on the 1-3 node in-process broker under virtual time",
+        "text": "Will topic {w, w/x} x QoS {0,1,2} x retain x mount point {default, m1} x cause {DISCONNECT, connection loss, keep-alive expiry, protocol error, failure of the hosting node} x every non-empty subset of watcher nodes on 1-2 (quick) / 1-3 (thorough) nodes, three watchers (w, w/+, #) per node plus one in another mount point: after DISCONNECT nobody receives the will within 10 s; otherwise every surviving watcher of the same mount point whose filter matches receives it exactly once with the topic as the client wrote it, and the foreign watcher receives nothing.",
+        "note": "Watchers acknowledge promptly; which survivor publishes the will after a node failure is free; the retain flag / QoS of the delivered copy are not judged here.",
+    },
     "C12": {
         "engine": "E2-brokermc",
         "technique": "explicit enumeration of ordered event selections (old-session ping/subscribe/disconnect/drop, single gossip deliveries, new-session subscribe) on a 2-node in-process broker with manually scheduled gossip",
